@@ -94,7 +94,9 @@ func init() {
 		r := e.scalar(args[0])
 		s, _ := args[1].(SliceV)
 		f.safetyOb("nopanic:nil", pc, fmt.Sprintf("(not (= %s 0))", r), in.Pos(), in)
+		keep := f.readerSelf(h, r, nm)
 		f.implHavoc(h, "Read/1:2", args[0])
+		keep()
 		rv := e.havocVal(nm, resT).(TupleV)
 		n, er := e.scalar(rv[0]), e.scalar(rv[1])
 		e.assume(fmt.Sprintf("(and (<= 0 %s) (<= %s %s) (= (= %s 0) (= %s %s)))", n, n, s.L, er, n, s.L))
@@ -176,6 +178,7 @@ func init() {
 				f.writerMany(h, dst, n, er)
 			}
 			f.readerAdvance(h, src, n, pc)
+			f.noteFault(h, er)
 			if !limited {
 				eof := e.ghost(h, "rd_eof")
 				e.setGhost(h, "rd_eof", eof, src, fmt.Sprintf("(or (select %s %s) (= %s 0))", eof, src, er))
@@ -290,12 +293,25 @@ func init() {
 	for _, n := range []string{"fmt.Sprintf", "fmt.Sprint", "fmt.Sprintln", "strings.TrimSpace", "strings.TrimPrefix", "strings.TrimSuffix", "strings.ToLower", "strings.ToUpper",
 		"strings.Join", "strings.HasSuffix", "strings.EqualFold", "strings.Replace", "strings.ReplaceAll", "strings.Fields", "strings.TrimRight", "strings.TrimLeft", "strings.Trim",
 		"strconv.Atoi", "strconv.Itoa", "strconv.ParseInt", "strconv.ParseUint", "strconv.FormatInt", "strconv.Quote",
-		"(*regexp.Regexp).FindStringSubmatch", "(*regexp.Regexp).MatchString", "(*regexp.Regexp).FindString", "hash/crc32.ChecksumIEEE", "hash/crc32.Update",
+		"(*regexp.Regexp).FindStringSubmatch", "(*regexp.Regexp).MatchString", "(*regexp.Regexp).FindString", "hash/crc32.Update",
 		"(*strings.Builder).String", "(*bytes.Buffer).Len", "(*bytes.Buffer).String", "(*bytes.Reader).Len", "(*bytes.Reader).Size", "path.Base", "path/filepath.Base", "path/filepath.Join", "path/filepath.Dir",
 		"fmt.Fprintf", "fmt.Fprintln", "fmt.Printf", "fmt.Println", "(time.Duration).String", "bytes.HasPrefix", "bytes.Contains", "unicode.IsSpace",
 		"github.com/klauspost/compress/zstd.WithEncoderLevel", "github.com/pierrec/lz4/v4.CompressionLevelOption"} {
 		reg(n, nil, pureFresh(false))
 	}
+	reg("hash/crc32.ChecksumIEEE", nil, func(f *frame, in ssa.Instruction, callee *ssa.Function, args []Val, pc string, h *Heap, nm string, resT types.Type) bool {
+		e := f.e
+		sv, ok := args[0].(SliceV)
+		if !ok {
+			f.setResult(in, e.havocVal(nm, resT))
+			return true
+		}
+		arr := e.comp(h, "E.uint8", "Int", true)
+		v := e.define(nm, "Int", fmt.Sprintf("(crcarr (select %s %s) %s %s)", arr, sv.B, sv.O, sv.L))
+		e.assume(rangeFact(resT, v))
+		f.setResult(in, Sc{v})
+		return true
+	})
 	reg("hash/crc32.NewIEEE", []string{"G.crc_hi"}, func(f *frame, in ssa.Instruction, callee *ssa.Function, args []Val, pc string, h *Heap, nm string, resT types.Type) bool {
 		e := f.e
 		r := e.newRef(nm + ".hash")
@@ -307,16 +323,18 @@ func init() {
 	reg("bytes.NewReader", rdG, func(f *frame, in ssa.Instruction, callee *ssa.Function, args []Val, pc string, h *Heap, nm string, resT types.Type) bool {
 		e := f.e
 		r := e.newRef(nm + ".bytesreader")
-		g := f.newStream(h, r, nm)
+		// ghost reader state is keyed by the interface value reads go through
+		key := fmt.Sprintf("(mkiface %d %s)", e.tagOf(resT), r)
+		g := f.newStream(h, key, nm)
 		if s, ok := args[0].(SliceV); ok {
-			f.streamIsSlice(h, r, g, s)
+			f.streamIsSlice(h, key, g, s)
 		}
 		f.setResult(in, PtrV{&Loc{Kind: LObj, Ref: r, T: resT.(*types.Pointer).Elem()}})
 		return true
 	})
 	reg("(*bytes.Reader).Reset", rdG, func(f *frame, in ssa.Instruction, callee *ssa.Function, args []Val, pc string, h *Heap, nm string, resT types.Type) bool {
 		e := f.e
-		r := e.scalar(args[0])
+		r := fmt.Sprintf("(mkiface %d %s)", e.tagOf(callee.Signature.Recv().Type()), e.scalar(args[0]))
 		g := f.newStream(h, r, nm)
 		if s, ok := args[1].(SliceV); ok {
 			f.streamIsSlice(h, r, g, s)
@@ -744,6 +762,7 @@ func init() {
 		for _, g := range []string{"G.rd_pos", "G.rd_left"} {
 			e.havocHeapComp(h, g)
 		}
+		f.noteFault(h, er)
 		f.setResult(in, rv)
 		return true
 	})
@@ -867,6 +886,18 @@ func (f *frame) fillFromStream(h *Heap, s SliceV, nm string, r, n string) {
 		s.O, s.O, n, row, r, gen, r, pos, r, s.O, row))
 }
 
+// readerSelf: a read on r may run wrapped readers underneath (whose ghost state changes), but r's own position and stream
+// identity change only as the model of the read says. Returns a function that restores them after the havoc.
+func (f *frame) readerSelf(h *Heap, r, nm string) func() {
+	e := f.e
+	p0 := e.define(nm+".pos0", "Int", fmt.Sprintf("(select %s %s)", e.ghost(h, "rd_pos"), r))
+	g0 := e.define(nm+".gen0", "Int", fmt.Sprintf("(select %s %s)", e.ghost(h, "rd_gen"), r))
+	return func() {
+		e.setGhost(h, "rd_pos", e.ghost(h, "rd_pos"), r, p0)
+		e.setGhost(h, "rd_gen", e.ghost(h, "rd_gen"), r, g0)
+	}
+}
+
 // noteFault records (at key 0 of rd_fault) that a read ended with an error other than EOF / unexpected EOF.
 func (f *frame) noteFault(h *Heap, er string) {
 	e := f.e
@@ -955,7 +986,8 @@ func (f *frame) implHavoc(h *Heap, key string, arg Val) {
 		// which the model of the library function accounts for itself
 		m2 := map[string]bool{}
 		for k := range m {
-			if k != "E.uint8" {
+			// rd_fault: a fault inside a wrapped reader reaches the caller as the error the wrapper returns, and is noted there
+			if k != "E.uint8" && k != "G.rd_fault" {
 				m2[k] = true
 			}
 		}
